@@ -62,6 +62,19 @@ def vectors(tier, rng):
         out.append(("ode2py", model, {"config": {"python": {"backend": "jax"}}}))
         out.append(("ode2py", model, {"config": {"stiff_states": st, "scheme": ["hybrid_rush_larsen"]}, "config_as": "pyproject"}))
         out.append(("ode2py", model, {"config": {"delta": 0.5, "scheme": ["generalized_rush_larsen"]}, "config_as": "pyproject", "delta": 1e-8}))
+        # configuration values that are "falsy" still override the command line (docs/config.md)
+        out.append(("ode2py", model, {"config": {"stiff_states": [], "scheme": ["hybrid_rush_larsen"]}, "stiff": st, "format": "none"}))
+        out.append(("ode2py", model, {"config": {"scheme": []}, "scheme": ["explicit_euler"], "format": "none"}))
+        out.append(("ode2py", model, {"config": {"delta": 0.0, "scheme": ["generalized_rush_larsen"]}, "delta": 0.5, "format": "none"}))
+        out.append(("ode2c", model, {"config": {"stiff_states": [], "scheme": ["hybrid_rush_larsen"]}, "stiff": st, "format": "none"}))
+        out.append(("ode2c", model, {"config": {"delta": 0.0, "scheme": ["generalized_rush_larsen"]}, "delta": 0.5, "format": "none"}))
+        # the model lives in another directory than the working directory
+        out.append(("ode2py", model, {"separate_dirs": True, "outname": "out.py", "format": "none"}))
+        out.append(("ode2py", model, {"separate_dirs": True, "format": "none"}))
+        out.append(("ode2c", model, {"separate_dirs": True, "outname": "out.c", "to": ".c", "format": "none"}))
+        out.append(("ode2c", model, {"separate_dirs": True, "format": "none"}))
+        out.append(("convert", model, {"separate_dirs": True, "outname": "out.h"}))
+        out.append(("convert", model, {"separate_dirs": True, "outname": "out.py"}))
         # ode2c
         out.append(("ode2c", model, {}))
         out.append(("ode2c", model, {"to": ".c"}))
@@ -208,7 +221,8 @@ def expected_output(cmd, model_path, o):
 WRITE_FLAGS = re.compile(r"O_WRONLY|O_RDWR|O_CREAT|O_TRUNC|O_APPEND")
 
 
-def files_opened_for_writing(trace_text, scratch):
+def files_opened_for_writing(trace_text, scratch, cwd=None):
+    cwd = cwd or scratch
     out = set()
     for ln in trace_text.splitlines():
         m = re.search(r'(?:openat|creat|open)\([^"]*"([^"]+)"(.*)', ln)
@@ -216,7 +230,7 @@ def files_opened_for_writing(trace_text, scratch):
             m2 = re.search(r'(?:rename|renameat2?|mkdir|mkdirat)\(.*"([^"]+)"', ln)
             if m2 and "= 0" in ln:
                 p = m2.group(1)
-                p = p if os.path.isabs(p) else os.path.join(scratch, p)
+                p = p if os.path.isabs(p) else os.path.join(cwd, p)
                 if os.path.realpath(p).startswith(os.path.realpath(scratch)):
                     out.add(os.path.relpath(os.path.realpath(p), os.path.realpath(scratch)))
             continue
@@ -225,7 +239,7 @@ def files_opened_for_writing(trace_text, scratch):
             continue
         if re.search(r"= -1 ", ln):
             continue
-        p = path if os.path.isabs(path) else os.path.join(scratch, path)
+        p = path if os.path.isabs(path) else os.path.join(cwd, path)
         rp = os.path.realpath(p)
         if rp.startswith(os.path.realpath(scratch) + os.sep):
             out.add(os.path.relpath(rp, os.path.realpath(scratch)))
@@ -248,6 +262,11 @@ def run_case(spec, ctx):
         elif model.startswith("invalid:"):
             fname = "bad.cellml" if cmd == "cellml2ode" else "bad.ode"
             open(os.path.join(scratch, fname), "w").write(INVALID[model.split(":", 1)[1]])
+        elif o.get("separate_dirs"):
+            os.makedirs(os.path.join(scratch, "models"))
+            os.makedirs(os.path.join(scratch, "work"))
+            open(os.path.join(scratch, "models", model + ".ode"), "w").write(MODELS[model])
+            fname = os.path.join("..", "models", model + ".ode")
         else:
             fname = model + ".ode"
             open(os.path.join(scratch, fname), "w").write(MODELS[model])
@@ -255,6 +274,7 @@ def run_case(spec, ctx):
             open(os.path.join(scratch, "pyproject.toml" if o.get("config_as") == "pyproject" else "conf.toml"), "w").write(toml_text(o["config"]))
         if o.get("outname") and "/" in o["outname"]:
             os.makedirs(os.path.join(scratch, os.path.dirname(o["outname"])), exist_ok=True)
+        cwd = os.path.join(scratch, "work") if o.get("separate_dirs") else scratch
         before = set(_listing(scratch))
         argv = argv_for(cmd, fname, o, scratch)
         e = env.child_env("0")
@@ -262,7 +282,7 @@ def run_case(spec, ctx):
         trace = os.path.join(scratch, "strace.log")
         full = ["strace", "-f", "-o", trace, "-e", "trace=openat,open,creat,rename,renameat,renameat2,unlink,unlinkat,mkdir,mkdirat"] + argv
         try:
-            p = subprocess.run(full, cwd=scratch, env=e, capture_output=True, text=True, timeout=280)
+            p = subprocess.run(full, cwd=cwd, env=e, capture_output=True, text=True, timeout=280)
         except subprocess.TimeoutExpired:
             out.update(status="inconclusive", reason="CLI run timed out")
             return out
@@ -271,7 +291,7 @@ def run_case(spec, ctx):
         if not ttext:
             out.update(status="inconclusive", reason="strace produced no log: " + p.stderr[-200:])
             return out
-        written = files_opened_for_writing(ttext, scratch)
+        written = files_opened_for_writing(ttext, scratch, cwd)
         after = set(_listing(scratch)) - {"strace.log"}
         new_files = after - before
         cn["files_opened_for_writing"] = len(written)
@@ -304,11 +324,14 @@ def run_case(spec, ctx):
             out["nontrivial"] = True
             cn["valid_runs"] = 1
             return finish(out, spec)
-        ex = C.call(expected_output, cmd, os.path.join(scratch, fname), o)
+        ex = C.call(expected_output, cmd, os.path.normpath(os.path.join(cwd, fname)), o)
         if not ex.ok:
             out.update(status="inconclusive", reason="API expectation failed: " + ex.describe()[:200])
             return out
         exp_path, exp_text = ex.value
+        if o.get("separate_dirs"):
+            # -o names are relative to the working directory; without -o the output goes next to the model
+            exp_path = os.path.join("work", exp_path) if o.get("outname") else os.path.join("models", exp_path)
         got_path = os.path.join(scratch, exp_path)
         if not os.path.exists(got_path):
             out["violations"].append({"kind": "output_file_missing_or_elsewhere", "subkind": f"{cmd}|{_optkey(o)}", "detail": dict(detail0, expected_path=exp_path)})
@@ -321,7 +344,7 @@ def run_case(spec, ctx):
                     if drop in ("outname", "to", "config_as"):
                         continue
                     o2 = {k: v for k, v in o.items() if k != drop}
-                    alt = C.call(expected_output, cmd, os.path.join(scratch, fname), o2)
+                    alt = C.call(expected_output, cmd, os.path.normpath(os.path.join(cwd, fname)), o2)
                     if alt.ok and alt.value[1] == got:
                         d["output_equals_api_without_option"] = drop
                         break
